@@ -975,8 +975,9 @@ class BaseWorkflow(object, metaclass=abc.ABCMeta):
                 List of absence step time in simulation.
         """
         for t in self.task_list:
-            if not isinstance(t, BaseSubProjectTask):
-                t.remove_absence_time_list(absence_time_list)
+            # BaseSubProjectTask has an attribute of the same name (a flag)
+            # which hides the method: call the method of BaseTask explicitly.
+            BaseTask.remove_absence_time_list(t, absence_time_list)
 
     def insert_absence_time_list(self, absence_time_list):
         """
@@ -987,8 +988,7 @@ class BaseWorkflow(object, metaclass=abc.ABCMeta):
                 List of absence step time in simulation.
         """
         for t in self.task_list:
-            if not isinstance(t, BaseSubProjectTask):
-                t.insert_absence_time_list(absence_time_list)
+            BaseTask.insert_absence_time_list(t, absence_time_list)
 
     def print_log(self, target_step_time):
         """
